@@ -9,7 +9,7 @@ from typing import Dict, List, Optional, Set, Tuple
 from ..core import astutil as A
 from ..core.index import AnalysisError, FuncInfo
 from ..selftest import M
-from .common import T, attr_stores, calls_named, conds, every_origin, facts, need, subscript_stores, where
+from .common import may_conds, T, attr_stores, calls_named, conds, every_origin, facts, need, subscript_stores, where
 
 PP = "ufo2ft.postProcessor.PostProcessor"
 
@@ -120,7 +120,46 @@ def r112(prog, chk):
     chk.ob("R11.2", f"{f.short}|CFF charset mapped with the same map, order kept", ok, where(f, ch[0][0]) if ch else where(f), detail=T(ch[0][2], 80) if ch else "",
            message=f"{f.short}: the CFF charset is not the old charset mapped element by element")
     tag = [s for s in A.stmts_of(f.node) if isinstance(s, ast.Assign) and isinstance(s.value, ast.IfExp) and "'CFF '" in T(s.value) and "'CFF2'" in T(s.value)]
-    chk.ob("R11.2", f"{f.short}|both CFF flavours are carriers", len(tag) == 1, where(f), detail=T(tag[0].value, 80) if tag else "", message=f"{f.short}: CFF or CFF2 is no longer updated")
+    chk.ob("R11.2", f"{f.short}|both CFF flavours are carriers", len(tag) == 1, where(f), detail=T(tag[0].value, 80) if tag else "", message=f"{f.short}: the choice of the CFF carrier table (CFF, else CFF2, else none) was changed")
+    # CFF is always re-keyed; a CFF2 table only when it is already decompiled (a table decompiled later reads the NEW glyph
+    # order, so re-keying it again applies the map twice: colliding names then exchange outlines)
+    if cs:
+        guards = [g for g in may_conds(prog, f, cs[0][0]) if g.polarity in (True, False)]
+
+        def ev(e, tagv, loaded):
+            if isinstance(e, ast.BoolOp):
+                vs = [ev(v, tagv, loaded) for v in e.values]
+                if any(v is None for v in vs):
+                    return None
+                return all(vs) if isinstance(e.op, ast.And) else any(vs)
+            if isinstance(e, ast.UnaryOp) and isinstance(e.op, ast.Not):
+                v = ev(e.operand, tagv, loaded)
+                return None if v is None else not v
+            if isinstance(e, ast.Compare) and len(e.ops) == 1 and isinstance(e.comparators[0], ast.Constant):
+                c = e.comparators[0].value
+                if isinstance(e.ops[0], ast.Eq):
+                    return tagv == c
+                if isinstance(e.ops[0], ast.NotEq):
+                    return tagv != c
+                if isinstance(e.ops[0], ast.Is):
+                    return tagv is c
+                if isinstance(e.ops[0], ast.IsNot):
+                    return tagv is not c
+            if isinstance(e, ast.Call) and A.callee_name(e) == "isLoaded":
+                return loaded
+            return None
+
+        def holds(tagv, loaded):
+            vs = [ev(g.test, tagv, loaded) for g in guards]
+            if any(v is None for v in vs):
+                return None
+            return all(v == g.polarity for v, g in zip(vs, guards))
+        tt = {(t_, l_): holds(t_, l_) for t_ in ("CFF ", "CFF2", None) for l_ in (False, True)}
+        need(all(v is not None for v in tt.values()), f"cannot interpret {f.short}: the guard of the CharStrings re-keying")
+        want = {("CFF ", False): True, ("CFF ", True): True, ("CFF2", False): False, ("CFF2", True): True, (None, False): False, (None, True): False}
+        chk.ob("R11.2", f"{f.short}|CFF is always re-keyed, CFF2 only when already decompiled", tt == want, where(f, cs[0][0]), detail=str([T(g.test, 70) for g in guards]),
+               message=f"{f.short}: the CharStrings re-keying runs under {[T(g.test, 60) for g in guards]}: a CFF2 table that is not yet loaded is decompiled with the NEW glyph order and then "
+                       f"re-keyed a second time (colliding names exchange outlines), or a loaded table is no longer re-keyed")
     # the three extraNames computations agree
     sp = ix.get_method(PP, "set_post_table_format", own=True)
     exprs = []
@@ -324,6 +363,10 @@ def r116(prog, chk):
 
 
 MUTANTS = [
+    M("CFF2 re-keyed even when not yet decompiled (seeded C11d shape)", "ufo2ft/postProcessor.py", "PostProcessor.rename_glyphs",
+      "cff_tag == 'CFF ' or (cff_tag == 'CFF2' and otf.isLoaded(cff_tag))", "cff_tag is not None", rule="R11.2"),
+    M("loaded CFF2 no longer re-keyed", "ufo2ft/postProcessor.py", "PostProcessor.rename_glyphs",
+      "cff_tag == 'CFF ' or (cff_tag == 'CFF2' and otf.isLoaded(cff_tag))", "cff_tag == 'CFF '", rule="R11.2"),
     M("rename without reloading first", "ufo2ft/postProcessor.py", "PostProcessor.process_glyph_names",
       "self.otf = _reloadFont(self.otf)\nself._rename_glyphs_from_ufo()", "self._rename_glyphs_from_ufo()\nself.otf = _reloadFont(self.otf)", rule="R11.1"),
     M("names dropped without reload", "ufo2ft/postProcessor.py", "PostProcessor.process_glyph_names",
